@@ -215,22 +215,30 @@ def _fn_term(name):
 
 
 # ------------------------------------------------------------------------------------------------------------
-# a plugin that contributes settings of the kinds no built-in plugin defines
+# plugins that contribute settings of the kinds no built-in plugin defines
 # ------------------------------------------------------------------------------------------------------------
-PLUGIN_SETTINGS = ("verifFlags", "verifRenamed", "verifChoice", "verifMixed")
-_registered = False
+# Three plugins, all through the public hook ``defineSettings``:
+#   VerifDefines    defines settings (flag list; active/expired/future old names; enforced options; float-list default; a count)
+#   VerifModifies   contributes an Option and two Defaults for settings VerifDefines defines -- the *order* in which the two
+#                   plugins are registered decides whether App.getSettings sees the modifiers before the setting (its cache
+#                   branch) or after it (its direct branch); both orders are exercised (set_plugin_order)
+#   VerifLate       defines one renamed setting and is registered only in the middle of a behaviour (action Register of
+#                   SettingsCase): settings texts are read before and after it arrives
+PLUGIN_SETTINGS = ("verifFlags", "verifRenamed", "verifChoice", "verifMixed", "verifCount", "verifLate")
+LATE_SETTING, LATE_OLD = "verifLate", "verifLateOld"
+ORDERS = ("define-then-modify", "modify-then-define")
+_plugins = {}
+_order = None
 
 
-def ensure_plugin():
-    """Register (once per process) a plugin defining four settings through the public hook ``defineSettings``."""
-    global _registered
-    if _registered:
-        return
+def _plugin_classes():
+    if _plugins:
+        return _plugins
     armi_ready()
-    from armi import getApp, plugins
+    from armi import plugins
     from armi.settings import setting
 
-    class VerifSettingsPlugin(plugins.ArmiPlugin):
+    class VerifDefines(plugins.ArmiPlugin):
         @staticmethod
         @plugins.HOOKIMPL
         def defineSettings():
@@ -242,13 +250,67 @@ def ensure_plugin():
                                           ("verifOldFuture", datetime.date(2999, 12, 31))]),
                 setting.Setting("verifChoice", default="x", description="C17: enforced options extended by Option/Default",
                                 options=["x", "y"], enforcedOptions=True),
-                setting.Option("z", "verifChoice"),
-                setting.Default("y", "verifChoice"),
                 setting.Setting("verifMixed", default=[1.5, 2.5], description="C17: non-empty list default (contained type float)"),
+                setting.Setting("verifCount", default=3, description="C17: a count whose default another plugin changes"),
             ]
 
-    getApp().pluginManager.register(VerifSettingsPlugin)
-    _registered = True
+    class VerifModifies(plugins.ArmiPlugin):
+        @staticmethod
+        @plugins.HOOKIMPL
+        def defineSettings():
+            return [setting.Option("z", "verifChoice"), setting.Default("y", "verifChoice"), setting.Default(7, "verifCount")]
+
+    class VerifLate(plugins.ArmiPlugin):
+        @staticmethod
+        @plugins.HOOKIMPL
+        def defineSettings():
+            return [setting.Setting(LATE_SETTING, default=1, description="C17: a renamed setting of a plugin that arrives late",
+                                    oldNames=[(LATE_OLD, None)])]
+
+    _plugins.update(defines=VerifDefines, modifies=VerifModifies, late=VerifLate)
+    return _plugins
+
+
+def set_plugin_order(order):
+    """(Re-)register the defining and the modifying plugin in the given order of registration."""
+    global _order
+    if order == _order:
+        return
+    armi_ready()
+    from armi import getApp
+
+    pm = getApp().pluginManager
+    pl = _plugin_classes()
+    for k in ("defines", "modifies"):
+        if pm.is_registered(pl[k]):
+            pm.unregister(pl[k])
+    for k in (("defines", "modifies") if order == ORDERS[0] else ("modifies", "defines")):
+        pm.register(pl[k])
+    _order = order
+
+
+def ensure_plugin():
+    if _order is None:
+        set_plugin_order(ORDERS[0])
+
+
+def late_registered():
+    armi_ready()
+    from armi import getApp
+
+    return getApp().pluginManager.is_registered(_plugin_classes()["late"])
+
+
+def register_late(on=True):
+    armi_ready()
+    from armi import getApp
+
+    pm = getApp().pluginManager
+    late = _plugin_classes()["late"]
+    if on and not pm.is_registered(late):
+        pm.register(late)
+    elif not on and pm.is_registered(late):
+        pm.unregister(late)
 
 
 # ------------------------------------------------------------------------------------------------------------
@@ -321,16 +383,38 @@ def _extras(entry, s):
     return out
 
 
-def catalog():
-    """-> (entries, skipped): one JSON-able record per real setting; ``skipped`` lists settings whose declaration cannot be
-    expressed (reported in evidence, never a verdict)."""
+def raw_declarations():
+    """What the framework and every plugin *declare*, before App.getSettings merges it: -> (settings by name, modifiers by
+    name in arrival order).  Gathered the way App.getSettings gathers (framework list, then the hook results); the late
+    plugin's declarations are taken from its hook function directly while it is not registered."""
     armi_ready()
     ensure_plugin()
-    from armi import settings
+    from armi import getApp
+    from armi.settings import Setting, fwSettings, setting
 
-    cs = settings.Settings()
+    items = list(fwSettings.getFrameworkSettings())
+    for lst in getApp().pluginManager.hook.defineSettings():
+        items += list(lst)
+    if not late_registered():
+        items += list(_plugin_classes()["late"].defineSettings())
+    decl, mods = {}, {}
+    for it in items:
+        if isinstance(it, Setting):
+            decl[it.name] = it
+        elif isinstance(it, setting.Option):
+            mods.setdefault(it.settingName, []).append({"kind": "option", "v": to_tag(it.option)})
+        elif isinstance(it, setting.Default):
+            mods.setdefault(it.settingName, []).append({"kind": "default", "v": to_tag(it.value)})
+    return decl, mods
+
+
+def catalog():
+    """-> (entries, skipped): one JSON-able record per real setting *as declared* plus the Option/Default modifiers other
+    plugins contribute (SettingSchema!EffDecl merges them); ``skipped`` lists settings whose declaration cannot be
+    expressed (reported in evidence, never a verdict)."""
+    decl, mods = raw_declarations()
     entries, skipped = [], []
-    for name, s in sorted(cs.items(), key=lambda kv: kv[0].lower()):
+    for name, s in sorted(decl.items(), key=lambda kv: kv[0].lower()):
         try:
             custom = s._customSchema
             e = {
@@ -343,8 +427,14 @@ def catalog():
                 "custom": schema_term(custom) if custom else {"k": "none"},
                 "old": [{"n": o, "hasExp": exp is not None, "exp": (exp.year * 10000 + exp.month * 100 + exp.day) if exp else 0}
                         for o, exp in s.oldNames],
+                "mods": mods.get(name, []),
             }
             e["extra"] = _extras(e, s)
+            for m in e["mods"]:
+                v = from_tag(m["v"])
+                for x in ([v, v + "_x"] if isinstance(v, str) else [v]):
+                    if to_tag(x) not in e["extra"]:
+                        e["extra"].append(to_tag(x))
         except (UnreadableSchema, Unrepresentable) as ex:
             skipped.append({"name": name, "why": "%s: %s" % (type(ex).__name__, ex)})
             continue
